@@ -255,6 +255,29 @@ def directed(rng):
                                                       "grid_connector_id": gid, "max_power": js["components"]["grid_connectors"][gid]["max_power"] / 2})
         for st in ("greedy", "balanced", "distributed", "balanced_market", "peak_shaving"):
             out.append((js, st, {}))
+    # D8: several vehicles (curve below the station rating) compete for a tight connector that a stationary battery supports
+    for _ in range(2):
+        js = scen.gen_scenario(rng, n_gc=1, n_veh=3, features={"battery", "fixed"}, steps=6, interval=rng.choice([15, 60]))
+        gid = list(js["components"]["grid_connectors"])[0]
+        start = datetime.datetime.fromisoformat(js["scenario"]["start_time"])
+        js["components"]["grid_connectors"][gid].update({"max_power": 20, "cost": {"type": "fixed", "value": 0.3}})
+        js["components"]["batteries"] = {"BAT1": {"parent": gid, "capacity": 100, "charging_curve": [[0, 30], [1, 30]], "soc": 0.8}}
+        for vt in js["components"]["vehicle_types"].values():
+            vt["charging_curve"] = [[0, 11], [1, 11]]
+            vt.pop("v2g", None)
+        for cs in js["components"]["charging_stations"].values():
+            cs["max_power"] = 50
+            cs.pop("min_power", None)
+        for k, (vid, v) in enumerate(js["components"]["vehicles"].items()):
+            csid = [c for c in js["components"]["charging_stations"] if vid in c][0]
+            v.update({"soc": 0.2, "desired_soc": 0.9, "connected_charging_station": csid,
+                      "estimated_time_of_departure": scen.iso(start + datetime.timedelta(hours=30))})
+        js["events"]["vehicle_events"] = []
+        js["events"]["grid_operator_signals"] = []
+        for f in js["events"]["fixed_load"].values():
+            f["values"] = [rng.choice([8, 12, 15]) for _ in f["values"]]
+        for st in ("greedy", "balanced"):
+            out.append((js, st, {}))
     # D5: schedule strategy, stationary battery, fixed load, scheduled target above a limit lowered by the operator; vehicles full
     for _ in range(2):
         js = scen.gen_scenario(rng, n_gc=1, n_veh=1, features={"battery", "fixed"}, steps=8, interval=60)
